@@ -5,15 +5,18 @@ import (
 	"verif/props/c02"
 	"verif/props/c03"
 	"verif/props/c04"
+	"verif/props/c05"
 	"verif/props/c06"
 	"verif/props/c07"
 	"verif/props/c08"
 	"verif/props/c09"
 	"verif/props/c10"
 	"verif/props/c11"
+	"verif/props/c12"
 	"verif/props/c13"
 	"verif/props/c15"
 	"verif/props/c16"
+	"verif/props/c17"
 	"verif/props/c18"
 	"verif/props/c19"
 	"verif/props/c20"
@@ -24,15 +27,18 @@ func init() {
 	props["C02"] = prop{c02.Run, c02.Replay}
 	props["C03"] = prop{c03.Run, c03.Replay}
 	props["C04"] = prop{c04.Run, c04.Replay}
+	props["C05"] = prop{c05.Run, c05.Replay}
 	props["C06"] = prop{c06.Run, c06.Replay}
 	props["C07"] = prop{c07.Run, c07.Replay}
 	props["C08"] = prop{c08.Run, c08.Replay}
 	props["C09"] = prop{c09.Run, c09.Replay}
 	props["C10"] = prop{c10.Run, c10.Replay}
 	props["C11"] = prop{c11.Run, c11.Replay}
+	props["C12"] = prop{c12.Run, c12.Replay}
 	props["C13"] = prop{c13.Run, c13.Replay}
 	props["C15"] = prop{c15.Run, c15.Replay}
 	props["C16"] = prop{c16.Run, c16.Replay}
+	props["C17"] = prop{c17.Run, c17.Replay}
 	props["C18"] = prop{c18.Run, c18.Replay}
 	props["C19"] = prop{c19.Run, c19.Replay}
 	props["C20"] = prop{c20.Run, c20.Replay}
